@@ -1,4 +1,5 @@
 import Fips204.Lemmas.RecoverW1
+import Fips204.Lemmas.SigDecodeEncode
 /-! An accepted signing attempt passes the verifier's test (exact specifications): the part of Algorithm 8 after
     signature decoding returns `true` on what lines 11-29 of Algorithm 7 produced. -/
 namespace Fips204.Impl
@@ -104,6 +105,120 @@ theorem loop_verifies (m : Mode) (O : Oracles) (hO : OracleOk O) (p : ParamSet)
       · obtain ⟨k', _, hl⟩ := bind_ok_inv hl
         exact ih k' (it + 1) hl
 
+/-- what an accepted attempt returns is inside the domain of the signature encoder -/
+theorem attempt_wf (m : Mode) (O : Oracles) (hO : OracleOk O) (p : ParamSet) (hb0 : 0 ≤ p.beta) (hom : 0 ≤ p.omega) (htau : 0 ≤ p.tau ∧ p.tau ≤ 64)
+    (aHat : List (List Poly)) (s1 s2 t0 : List Poly)
+    (hA : ∀ row ∈ aHat, ∀ a ∈ row, a.length = 256) (hs1 : s1.length = p.l ∧ ∀ u ∈ s1, u.length = 256)
+    (hs2 : s2.length = p.k ∧ ∀ u ∈ s2, u.length = 256) (ht0 : t0.length = p.k ∧ ∀ u ∈ t0, u.length = 256) (hk : aHat.length = p.k)
+    (mu rhoPP : List Nat) (kappa : Int)
+    (hyS : ∀ y, expandMask m O p rhoPP kappa = .ok y → y.length = s1.length ∧ ∀ u ∈ y, u.length = 256)
+    (cT : List Nat) (z h : List Poly)
+    (hatt : attemptSpec m O p s1 s2 t0 aHat mu rhoPP kappa = .ok (some (cT, z, h))) :
+    cT.length = p.lambdaDiv4 ∧ Sh p.l z ∧ (∀ q ∈ z, ∀ c ∈ q, -(p.gamma1 - 1) ≤ c ∧ c ≤ p.gamma1) ∧ Sh p.k h ∧ (∀ q ∈ h, Bin q) ∧
+      onesAll h ≤ p.omega.toNat := by
+  unfold attemptSpec at hatt
+  obtain ⟨y, hy, h1⟩ := bind_ok_inv hatt
+  simp only [] at h1
+  obtain ⟨w1t, hw1t, h2⟩ := bind_ok_inv h1
+  obtain ⟨c, hc, h3⟩ := bind_ok_inv h2
+  split at h3
+  · simp [pure_eq] at h3
+  rename_i hr1
+  split at h3
+  · simp [pure_eq] at h3
+  rename_i hr2
+  simp only [pure_eq] at h3
+  have e := ok_inj h3
+  simp only [Option.some.injEq, Prod.mk.injEq] at e
+  obtain ⟨e1, e2, e3⟩ := e
+  subst e1 e2 e3
+  simp only [Bool.or_eq_true, decide_eq_true_eq, not_or, Int.not_le, ge_iff_le] at hr1 hr2
+  obtain ⟨hyl, hy256⟩ := hyS y hy
+  have lz : zeroPoly.length = 256 := by unfold zeroPoly; rw [List.length_replicate]
+  have hcm : ∀ u, u.length = 256 → c.length = 256 → (cmul c u).length = 256 := fun u hu hcl => by
+    unfold cmul canon; rw [List.length_map, negMul_length c u hcl hu]
+  have hcl : c.length = 256 := by
+    rcases sampleInBall_np' m O hO false p.tau _ htau with ⟨v, hv, hp⟩ | ⟨s, hs⟩
+    · rw [hc] at hv; have := ok_inj hv; subst this; exact hp.1.1
+    · rw [hc] at hs; cases hs
+  refine ⟨hO.hlen _ _, ⟨?_, ?_⟩, ?_, ⟨?_, ?_⟩, ?_, ?_⟩
+  · rw [List.length_zipWith, List.length_map, hyl, hs1.1]; exact Nat.min_self _
+  · intro q hq
+    obtain ⟨yp, hyp, cp, hcp, rfl⟩ := mem_zipWith' _ _ _ _ hq
+    obtain ⟨u, hu, rfl⟩ := List.mem_map.mp hcp
+    rw [List.length_zipWith, hy256 yp hyp, hcm u (hs1.2 u hu) hcl]; rfl
+  · intro q hq x hx
+    have hbn := normInfS_bound _ _ hr1.1 q hq x hx
+    obtain ⟨yp, hyp, cp, hcp, rfl⟩ := mem_zipWith' _ _ _ _ hq
+    obtain ⟨a, _, b, _, rfl⟩ := mem_zipWith' _ _ _ _ hx
+    rw [modpm_idem, absI_eq] at hbn
+    split at hbn <;> omega
+  · unfold attemptSpec.zw3L commitS
+    simp only [List.length_zipWith, List.length_map, List.length_zip, hk, hs2.1, ht0.1]; omega
+  · intro q hq
+    unfold attemptSpec.zw3L at hq
+    obtain ⟨ap, hap, bc, hbc, rfl⟩ := mem_zipWith' _ _ _ _ hq
+    have hb1 := (List.of_mem_zip hbc).1
+    have hb2 := (List.of_mem_zip hbc).2
+    obtain ⟨u, hu, e1⟩ := List.mem_map.mp hb1
+    obtain ⟨v, hv, e2⟩ := List.mem_map.mp hb2
+    unfold commitS at hap
+    obtain ⟨row, hrow, e0⟩ := List.mem_map.mp hap
+    have lRy := (rowS_ev 0 (by decide) row y zeroPoly lz (hA row hrow) hy256).1
+    have l0 : ap.length = 256 := by rw [← e0]; exact invC_length _ lRy
+    unfold zw3
+    rw [List.length_zipWith, List.length_zip, l0, ← e1, ← e2, hcm u (hs2.2 u hu) hcl, hcm v (ht0.2 v hv) hcl]; rfl
+  · intro q hq
+    unfold attemptSpec.zw3L at hq
+    obtain ⟨ap, hap, bc, hbc, rfl⟩ := mem_zipWith' _ _ _ _ hq
+    have hb1 := (List.of_mem_zip hbc).1
+    have hb2 := (List.of_mem_zip hbc).2
+    obtain ⟨u, hu, e1⟩ := List.mem_map.mp hb1
+    obtain ⟨v, hv, e2⟩ := List.mem_map.mp hb2
+    unfold commitS at hap
+    obtain ⟨row, hrow, e0⟩ := List.mem_map.mp hap
+    have lRy := (rowS_ev 0 (by decide) row y zeroPoly lz (hA row hrow) hy256).1
+    have l0 : ap.length = 256 := by rw [← e0]; exact invC_length _ lRy
+    refine ⟨?_, fun x hx => ?_⟩
+    · unfold zw3
+      rw [List.length_zipWith, List.length_zip, l0, ← e1, ← e2, hcm u (hs2.2 u hu) hcl, hcm v (ht0.2 v hv) hcl]; rfl
+    · unfold zw3 at hx
+      obtain ⟨a, _, b, _, rfl⟩ := mem_zipWith' _ _ _ _ hx
+      dsimp only
+      split
+      · exact Or.inr rfl
+      · exact Or.inl rfl
+  · have := hr2.2
+    omega
+
+/-- whatever the rejection loop returns is the result of one accepted attempt -/
+theorem loop_some_attempt (m : Mode) (O : Oracles) (p : ParamSet) (s1 s2 t0 : List Poly) (aHat : List (List Poly)) (mu rhoPP : List Nat)
+    (cT : List Nat) (z h : List Poly) (n : Nat) :
+    ∀ (fuel : Nat) (kappa : Int) (it : Nat), loopSpec m O p s1 s2 t0 aHat mu rhoPP fuel kappa it = .ok (cT, z, h, n) →
+      ∃ kappa', attemptSpec m O p s1 s2 t0 aHat mu rhoPP kappa' = .ok (some (cT, z, h)) := by
+  intro fuel
+  induction fuel with
+  | zero => intro kappa it hl; unfold loopSpec at hl; cases hl
+  | succ fuel ih =>
+    intro kappa it hl
+    unfold loopSpec at hl
+    obtain ⟨r, hr, hl⟩ := bind_ok_inv hl
+    cases r with
+    | some t =>
+      obtain ⟨c', z', h'⟩ := t
+      simp only [pure_eq] at hl
+      have e := ok_inj hl
+      simp only [Prod.mk.injEq] at e
+      obtain ⟨e1, e2, e3, _⟩ := e
+      subst e1 e2 e3
+      exact ⟨kappa, hr⟩
+    | none =>
+      simp only [] at hl
+      split at hl
+      · cases hl
+      · obtain ⟨k', _, hl⟩ := bind_ok_inv hl
+        exact ih k' (it + 1) hl
+
 theorem expandMask_shape (m : Mode) (O : Oracles) (p : ParamSet) (rho : List Nat) (kappa : Int) (ys : List Poly)
     (h : expandMask m O p rho kappa = .ok ys) : ys.length = p.l ∧ ∀ u ∈ ys, u.length = 256 := by
   unfold expandMask at h
@@ -143,7 +258,11 @@ theorem sign_verify_spec_partial (m : Mode) (O : Oracles) (hO : OracleOk O) (p :
     (hsign : signSpec m O p fuel rho key tr s1 s2
       ((List.zipWith (fun row s2r => tRowS row s1 s2r) aHat s2).map (fun q => q.map (fun x => (Spec.power2round x).2)))
       msg ctx oid phm rnd nist = .ok out)
-    (hcodec : ∀ cT z h, sigEncode m false p cT z h = .ok out.sig → sigDecode m p out.sig = .ok (some (cT, z, h))) :
+    (hcodec : ∀ cT z h it, loopSpec m O p s1 s2
+        ((List.zipWith (fun row s2r => tRowS row s1 s2r) aHat s2).map (fun q => q.map (fun x => (Spec.power2round x).2))) aHat
+        (muOf O domPure_sign domHash_sign tr msg ctx oid phm nist)
+        (O.h (key ++ rnd ++ muOf O domPure_sign domHash_sign tr msg ctx oid phm nist) 64) fuel 0 0 = .ok (cT, z, h, it) →
+      sigEncode m false p cT z h = .ok out.sig → sigDecode m p out.sig = .ok (some (cT, z, h))) :
     verifySpec m O false p rho tr
       ((List.zipWith (fun row s2r => tRowS row s1 s2r) aHat s2).map (fun q => q.map (fun x => (Spec.power2round x).1)))
       msg out.sig ctx oid phm nist = .ok true := by
@@ -156,7 +275,7 @@ theorem sign_verify_spec_partial (m : Mode) (O : Oracles) (hO : OracleOk O) (p :
   obtain ⟨sig, henc, hsign⟩ := bind_ok_inv hsign
   rw [pure_eq] at hsign
   have := ok_inj hsign; subst this
-  have hdec := hcodec cT z h henc
+  have hdec := hcodec cT z h it hloop henc
   have hv := loop_verifies m O hO p hg hbeta hbg htau heta aHat s1 s2 hA hs1.2 hs2 hs2b hk _ _
     (fun kappa y hy => by
       obtain ⟨a, b⟩ := expandMask_shape m O p _ kappa y hy
@@ -169,5 +288,48 @@ theorem sign_verify_spec_partial (m : Mode) (O : Oracles) (hO : OracleOk O) (p :
   obtain ⟨c, hc, hv⟩ := bind_ok_inv hv
   rw [hc, ok_bind, hexp, ok_bind]
   exact hv
+
+theorem tRowS_length (row s1 : List Poly) (s2r : Poly) (hrow : ∀ a ∈ row, a.length = 256) (hs1 : ∀ u ∈ s1, u.length = 256)
+    (ls2 : s2r.length = 256) : (tRowS row s1 s2r).length = 256 := by
+  have lz : zeroPoly.length = 256 := by unfold zeroPoly; rw [List.length_replicate]
+  have lRs := (rowS_ev 0 (by decide) row s1 zeroPoly lz hrow hs1).1
+  unfold tRowS; rw [List.length_zipWith]
+  have := invC_length _ lRs
+  unfold invC at this; rw [this, ls2]; rfl
+
+/-- **a signature made by Algorithm 7 is accepted by Algorithm 8** (exact specifications), for every key `(rho, K, tr, s1, s2)` with
+    `t = A s1 + s2`, `(t1, t0) = Power2Round(t)`: through the rejection loop, the byte encoder and the byte decoder. -/
+theorem sign_verify_spec (m : Mode) (O : Oracles) (hO : OracleOk O) (p : ParamSet) (blz : Nat) (cfg : SigCfg p blz)
+    (hg : p.gamma2 = 95232 ∨ p.gamma2 = 261888) (hbeta : p.beta = p.eta * p.tau) (hbg : p.beta ≤ p.gamma2)
+    (htau : 0 ≤ p.tau ∧ p.tau ≤ 64) (heta : 0 ≤ p.eta ∧ p.eta ≤ 4)
+    (fuel : Nat) (rho key tr : List Nat) (s1 s2 : List Poly) (aHat : List (List Poly)) (hexp : expandA m O false p rho = .ok aHat)
+    (hA : ∀ row ∈ aHat, ∀ a ∈ row, a.length = 256) (hk : aHat.length = p.k)
+    (hs1 : s1.length = p.l ∧ ∀ u ∈ s1, u.length = 256) (hs2 : s2.length = p.k ∧ ∀ u ∈ s2, u.length = 256)
+    (hs2b : ∀ u ∈ s2, ∀ x ∈ u, -p.eta ≤ x ∧ x ≤ p.eta)
+    (msg ctx oid phm rnd : List Nat) (nist : Bool) (out : SignOut)
+    (hsign : signSpec m O p fuel rho key tr s1 s2
+      ((List.zipWith (fun row s2r => tRowS row s1 s2r) aHat s2).map (fun q => q.map (fun x => (Spec.power2round x).2)))
+      msg ctx oid phm rnd nist = .ok out) :
+    verifySpec m O false p rho tr
+      ((List.zipWith (fun row s2r => tRowS row s1 s2r) aHat s2).map (fun q => q.map (fun x => (Spec.power2round x).1)))
+      msg out.sig ctx oid phm nist = .ok true := by
+  have hb0 : 0 ≤ p.beta := by rw [hbeta]; exact Int.mul_nonneg heta.1 htau.1
+  have ht0 : ((List.zipWith (fun row s2r => tRowS row s1 s2r) aHat s2).map (fun q => q.map (fun x => (Spec.power2round x).2))).length = p.k ∧
+      ∀ u ∈ (List.zipWith (fun row s2r => tRowS row s1 s2r) aHat s2).map (fun q => q.map (fun x => (Spec.power2round x).2)), u.length = 256 := by
+    refine ⟨by rw [List.length_map, List.length_zipWith, hk, hs2.1]; exact Nat.min_self _, fun u hu => ?_⟩
+    obtain ⟨q, hq, hqe⟩ := List.mem_map.mp hu
+    obtain ⟨row, hrow, s2r, hs2r, hqe2⟩ := mem_zipWith' (fun row s2r => tRowS row s1 s2r) aHat s2 q hq
+    rw [← hqe, List.length_map, hqe2]
+    exact tRowS_length row s1 s2r (hA row hrow) hs1.2 (hs2.2 s2r hs2r)
+  refine sign_verify_spec_partial m O hO p hg hbeta hbg htau heta fuel rho key tr s1 s2 aHat hexp hA (hk.trans hs2.1.symm) hs1 hs2.2 hs2b
+    msg ctx oid phm rnd nist out hsign ?_
+  generalize (List.zipWith (fun row s2r => tRowS row s1 s2r) aHat s2).map (fun q => q.map (fun x => (Spec.power2round x).2)) = t0 at ht0
+  intro cT z h it hloop henc
+  obtain ⟨kappa', hatt⟩ := loop_some_attempt m O p s1 s2 t0 aHat _ _ cT z h it fuel 0 0 hloop
+  obtain ⟨w1, w2, w3, w4, w5, w6⟩ := attempt_wf m O hO p hb0 cfg.om htau aHat s1 s2 t0 hA hs1 hs2 ht0 hk _ _ kappa'
+    (fun y hy => by
+      obtain ⟨a, b⟩ := expandMask_shape m O p _ kappa' y hy
+      exact ⟨a.trans hs1.1.symm, b⟩) cT z h hatt
+  exact sigDecode_sigEncode m p blz cfg cT z h w1 w2 w3 w4 w5 w6 out.sig henc
 
 end Fips204.Impl
